@@ -1,7 +1,7 @@
 # run specification for C09 (loaded by checks_config.py)
 CHECK = {
  'level': 'exploration',
- 'rule': '43 targets (decoders NewBlock/NewBlockHeader/NewTransaction/NewBlockAsset/NewEvent, Block/Transaction.Validate on both decoding paths, '
+ 'rule': '41 targets (decoders NewBlock/NewBlockHeader/NewTransaction/NewBlockAsset/NewEvent, Block/Transaction.Validate on both decoding paths, '
          'EventPostSingleCommits.DecodeStrict, p2p Request/response/Message envelopes, gossip wrapper around the three topic validators, '
          'Executer.blockValidator/singleCommitValidator/verifyAggregateCommit on a 24-block 10-validator node, txpool validator and RPC handler, the '
          'three sync RPC handlers on a started connection, the requester-side decoders of the three sync RPCs (pure and end to end against a scripted '
@@ -36,7 +36,7 @@ CHECK = {
    {'pkg': 'c09', 'run': 'TestDecodeMutations|TestDecodeShortStrings|TestRegress|^Fuzz', 'shards': 16, 'timeout': 2400},
    {'pkg': 'c09', 'run': 'TestNodeMutations|TestNodeShortStrings|TestAggregateCommitEnumerated|TestSyncClientE2E|TestDownloaderTerminates', 'shards': 4, 'timeout': 2400},
    {'pkg': 'c09', 'run': 'TestCryptoEnumerated|TestProofsEnumerated', 'shards': 2, 'timeout': 2400},
-   {'pkg': 'c09', 'run': 'TestRandomMutations|TestRandomBytes|TestStructuredRandom', 'checks': 250000, 'shards': 10, 'timeout': 2400},
+   {'pkg': 'c09', 'run': 'TestRandomMutations|TestRandomBytes|TestStructuredRandom', 'checks': 600000, 'shards': 10, 'timeout': 2400},
  ],
  'replay': [{'pkg': 'c09', 'run': 'TestReplayCase|TestRandomMutations|TestRandomBytes|TestStructuredRandom', 'checks': 1, 'timeout': 900}],
 }
